@@ -56,3 +56,17 @@ package transactional
 //gvc:  ensures cas: err == nil && old != nil ==> old(tx_view(r, strid(old.n))) != 0 && field(old(tx_view(r, strid(old.n))), "plumbing.Reference.h") == old.h
 //gvc:  ensures base: r.ReferenceStorer.#refs == old(r.ReferenceStorer.#refs)
 //gvc:end
+
+// IterReferences must list exactly the names of the view, once each.
+// Known finding F10: base and temporal iterators are concatenated unfiltered,
+// so a name that is in the base storage and was removed or overridden in the
+// transaction is listed although absent / listed twice.
+//gvc:func ReferenceStorage.IterReferences
+//gvc:  props C19
+//gvc:  theory int
+//gvc:  results it err
+//gvc:  requires distinct: r.temporal != r.ReferenceStorer
+//gvc:  requires consistent: forall(k, -0x7fffffffffffffff, 0x7fffffffffffffff, has(r.deleted, k) ==> r.temporal.#refs[k] == 0)
+//gvc:  ensures exact: err == nil ==> forall(k, -0x7fffffffffffffff, 0x7fffffffffffffff, it.#count[k] == ite(tx_view(r, k) != 0, 1, 0))
+//gvc:  kf F10 exact: exists(k, -0x7fffffffffffffff, 0x7fffffffffffffff, r.ReferenceStorer.#refs[k] != 0 && (has(r.deleted, k) || r.temporal.#refs[k] != 0))
+//gvc:end
